@@ -5,6 +5,7 @@ Models: `DarsiaModel.SignalModels` (exact rationals; mirrors the classes after t
 `DarsiaGen.SignalTables` is tabulated from the running code on every check (G1).
 -/
 import DarsiaProofs.SignalModels
+import DarsiaProofs.KernelInterp
 import DarsiaGen.SignalTables
 import Mathlib.Algebra.Order.AbsoluteValue.Basic
 namespace Darsia.C14
@@ -148,6 +149,39 @@ theorem interp_reproduces_partial {F : Type} [Field F] {n : Nat} (K : Matrix (Fi
     (hK : IsUnit K.det) (v : Fin n → F) (i : Fin n) : ∑ j, (K⁻¹.mulVec v) j * K i j = v i :=
   interp_reproduces K hK v i
 
+/-! ### kernel interpolation as a state machine (`DarsiaModel.KernelInterp`) -/
+
+open Darsia.Kern in
+/-- **state invariant**: after every sequence of `update` / `update_kernel` / `update_model_parameters(values)`
+calls that does not raise, the cached inverse (if any) belongs to the kernel in force and the current supports,
+and the weights (if any) were computed with that inverse from the current values. -/
+theorem kernel_cache_never_stale (k0 : Nat) (ops : List KOp) (st : KState) (h : run (init k0) ops = .ok st) :
+    (∀ key, st.cache = some key → key.1 = st.kernel ∧ st.supports = some key.2 ∧ st.numSupports = key.2.length) ∧
+    (∀ key vals, st.weights = some (key, vals) →
+      st.cache = some key ∧ st.values = some vals ∧ vals.length = key.2.length) :=
+  run_inv ops (inv_init k0) h
+
+open Darsia.Kern in
+/-- **interp_reproduces_after_updates**: for every update sequence, every kernel family `kfun` over any field:
+if weights exist they are `K⁻¹ v` for the kernel matrix `K` of the kernel in force at the CURRENT supports `S`
+and the CURRENT values `v`, and if that `K` is invertible the kernel sum evaluated with the kernel in force
+reproduces `v i` at every current support `S i`. (`exp`, `np.linalg.inv` and float32 remain observed.) -/
+theorem interp_reproduces_after_updates {F : Type} [Field F] (kfun : Nat → Pt → Pt → F) (k0 : Nat)
+    (ops : List KOp) (st : KState) (h : run (init k0) ops = .ok st) (key : Key) (vals : List Rat)
+    (hw : st.weights = some (key, vals)) :
+    key.1 = st.kernel ∧ st.supports = some key.2 ∧ st.values = some vals ∧ vals.length = key.2.length ∧
+    (IsUnit (Kmat kfun st.kernel key.2).det → ∀ i : Fin key.2.length,
+      ∑ j, ((Kmat kfun key.1 key.2)⁻¹.mulVec fun j => ((listGetD vals j.val 0 : Rat) : F)) j
+          * kfun st.kernel (key.2.get i) (key.2.get j)
+        = ((listGetD vals i.val 0 : Rat) : F)) := by
+  obtain ⟨hc, hwk⟩ := kernel_cache_never_stale k0 ops st h
+  obtain ⟨h1, h2, h3⟩ := hwk key vals hw
+  obtain ⟨h4, h5, _⟩ := hc key h1
+  refine ⟨h4, h5, h2, h3, ?_⟩
+  intro hK i
+  rw [h4]
+  exact interp_reproduces (Kmat kfun st.kernel key.2) hK _ i
+
 /-! ### polynomial approximation space -/
 
 /-- `poly_span`: for every degree `d` the exponent list has no repetition, contains exactly the pairs
@@ -162,6 +196,17 @@ theorem poly_matches_code : ∀ d ∈ Gen.polyDegrees,
     Gen.polyTable d = (polyExps d).map some ∧ Gen.polySizeTable d = some (polySize d) := by decide
 
 /-! ### non-vacuity -/
+
+open Darsia.Kern in
+/-- a sequence with unsorted supports, a duplicate row, a kernel change and a value-only update: the weights
+end up keyed by the new kernel and the sorted, de-duplicated supports -/
+example : (run (init 0) [.update none (some [[2, 0, 0], [0, 0, 0], [2, 0, 0]]) (some [1 / 2, 1 / 4, 1]) false,
+      .update (some 2) none none false, .valuesParam [1, 3, 5]]).map (·.weights)
+    = .ok (some ((2, [[0, 0, 0], [2, 0, 0]]), [1, 3])) := by decide +kernel
+open Darsia.Kern in
+/-- … and the guard: a value vector of the wrong length raises (ValueError from the matrix product) -/
+example : (run (init 0) [.update none (some [[1, 0, 0]]) (some [1 / 2]) false, .update none none (some [1, 2]) false]).map (·.weights)
+    = .error .value := by decide +kernel
 
 example : updateSubset [.clip 0 (some 1), .linear 1 0] [(0, .names [.minValue]), (1, .names [.scaling])] [1 / 4, 5]
     = .ok [.clip (1 / 4) (some 1), .linear 5 0] := by decide +kernel
